@@ -225,6 +225,28 @@ class Own:
             f = t[1]
             name = callee_name(t)
             kw = dict(t[3])
+            if op(f) == "attr" and (op(f[1]) == "cls" and f[1][1].rsplit(".", 1)[-1] == "Converter" or (f[1] == ("param", "cls") and self.fn.is_classmethod)):
+                # a loader called on the class: its records are fresh unless the loader hands the elements of an
+                # argument through unchanged (from_extended_prefix_map keeps Record instances as they are)
+                ci = self.cx.model.classes.get(f[1][1]) if op(f[1]) == "cls" else self.fn.cls
+                callee = self.cx.model.find_method(ci, name) if ci is not None else None
+                if callee is not None and callee.is_classmethod:
+                    from ..rules import bind_args
+
+                    through = _passes_through(self.cx, callee)
+                    b = bind_args(callee, t) if through else None
+                    if through and b is None:
+                        # surplus keywords (**kwargs): bind what can be bound by position / name
+                        names = [p.name for p in callee.params if p.name != "cls"]
+                        b = dict(zip(names, t[2]))
+                        b.update({k: v for k, v in t[3] if k in names})
+                    worst = ("F",)
+                    for pname in through:
+                        a = (b or {}).get(pname)
+                        if a is None:
+                            continue
+                        worst = _worse(worst, self._elem(a, depth))
+                    return ("CF", worst)
             if op(f) == "attr":
                 recv = f[1]
                 if name == "model_copy":
@@ -274,6 +296,49 @@ class Own:
                 return ("CF", self._elem(recs, depth) if recs is not None else None)
             return None
         return None
+
+
+_THROUGH: dict = {}
+
+
+def _passes_through(cx: Cx, callee: FunctionInfo) -> set:
+    """Parameters of a constructor-like classmethod whose ELEMENTS can end up, as the same objects, among the
+    records of the converter it returns (``cls([r if isinstance(r, Record) else Record(**r) for r in data])``)."""
+    key = (id(cx.model), callee.qualname)
+    if key in _THROUGH:
+        return _THROUGH[key]
+    _THROUGH[key] = set()
+    out = set()
+    s = cx.summary(callee)
+    params = {("param", p.name): p.name for p in callee.params}
+
+    def source_param(src, depth=0):
+        if depth > 4:
+            return None
+        if src in params:
+            return params[src]
+        if op(src) == "call" and src[2]:
+            return source_param(src[2][0], depth + 1)  # _prepare(data), list(data), sorted(data) ...
+        return None
+
+    def bare(elt, tgt):
+        if elt == tgt:
+            return True
+        if op(elt) == "ifexp":
+            return bare(elt[2], tgt) or bare(elt[3], tgt)
+        return False
+
+    for t, ctx in s.returns():
+        for x in subterms(t):
+            if op(x) == "comp" and x[1] in ("list", "gen") and len(x[3]) == 1:
+                tgt, src, _ = x[3][0]
+                p = source_param(src)
+                if p is not None and bare(x[2], tgt):
+                    out.add(p)
+            if op(x) == "call" and (op(x[1]) == "cls" or x[1] == ("param", "cls")) and x[2] and source_param(x[2][0]) is not None and op(x[2][0]) != "comp":
+                out.add(source_param(x[2][0]))
+    _THROUGH[key] = out
+    return out
 
 
 def _worse(a, b):
